@@ -5,17 +5,35 @@ use std::time::{Duration, Instant};
 /// Replays one case on a helper thread; a case that does not return within the deadline is a
 /// non-termination violation (a hang must fail the check, not hang it).
 fn replay_with_deadline(sec: Box<dyn AnySection>, case: serde_json::Value, secs: u64) -> Result<CaseOut, String> {
+    // deadline in CPU time of the replaying thread (a hang burns CPU; a loaded machine must not turn a healthy replay into
+    // "non-termination"), with 15x the deadline in wall time as the backstop for a case that blocks
     let (tx, rx) = std::sync::mpsc::channel();
+    let (ctx, crx) = std::sync::mpsc::channel();
     std::thread::Builder::new()
         .stack_size(64 << 20)
         .spawn(move || {
+            let _ = ctx.send(hcv::engine::cpuclock::own_clock());
             let r = sec.replay(&case);
             let _ = tx.send(r);
         })
         .map_err(|e| e.to_string())?;
-    match rx.recv_timeout(Duration::from_secs(secs)) {
-        Ok(r) => r,
-        Err(_) => Ok(CaseOut::fail("replay:nontermination", format!("the replayed case returns within {secs} s"), "still running at the deadline")),
+    let clock = crx.recv_timeout(Duration::from_secs(60)).unwrap_or(-1);
+    let t0 = Instant::now();
+    loop {
+        match rx.recv_timeout(Duration::from_millis(50)) {
+            Ok(r) => return r,
+            Err(std::sync::mpsc::RecvTimeoutError::Disconnected) => return Err("replay thread died".into()),
+            Err(std::sync::mpsc::RecvTimeoutError::Timeout) => {}
+        }
+        let cpu = hcv::engine::cpuclock::read_ns(clock).map(Duration::from_nanos);
+        let wall = t0.elapsed();
+        let over = match cpu {
+            Some(c) => c > Duration::from_secs(secs) || wall > Duration::from_secs(secs * 15),
+            None => wall > Duration::from_secs(secs * 4),
+        };
+        if over {
+            return Ok(CaseOut::fail("replay:nontermination", format!("the replayed case returns within {secs} s of CPU time"), "still running at the deadline"));
+        }
     }
 }
 
@@ -76,7 +94,7 @@ fn main() {
             eprintln!("section {section} not found for {id}");
             std::process::exit(2)
         };
-        match replay_with_deadline(sec, doc["case"].clone(), 120) {
+        match replay_with_deadline(sec, doc["case"].clone(), 60) {
             Ok(out) => match out.verdict {
                 Verdict::Fail(f) => {
                     println!("VIOLATION property={} replay={}", id, path);
